@@ -909,7 +909,6 @@ func (c *Ctx) cod5Head() {
 		{"(*Client).PublishExactlyOnce", base | 2<<1, eo},
 		{"(*Client).PublishExactlyOnceRetained", base | 2<<1 | 1, eo},
 	}
-	pp := c.P.Func("publishPacket")
 	for _, t := range tab {
 		fn := c.Fn("COD-5", t.name)
 		if fn == nil {
@@ -938,12 +937,15 @@ func (c *Ctx) cod5Head() {
 				}
 				n++
 				head = k
-				if call.Call.StaticCallee() == pp && len(args) >= 2 {
-					if s, ok := intConst(args[len(args)-2]); ok {
-						space = s
+				// the identifier space travels next to the header byte when there is one;
+				// the QoS 0 methods go through publish(), which passes identifier 0
+				space = 0
+				if len(args) >= 2 {
+					if k2, isConst := args[len(args)-2].(*ssa.Const); isConst && k2.Type().String() == "uint" {
+						if s, ok := intConst(k2); ok {
+							space = s
+						}
 					}
-				} else {
-					space = 0 // through publish(), which passes identifier 0
 				}
 			}
 		}
